@@ -638,7 +638,7 @@ def normalize_merchant(
 
             # Rule matched - collect tags
             if tags:
-                resolved_tags = _resolve_dynamic_tags(tags, transaction)
+                resolved_tags = _resolve_dynamic_tags(tags, transaction, data_sources)
                 all_tags.extend(resolved_tags)
                 # Track which rule added each tag (first rule wins for each tag)
                 for tag in resolved_tags:
@@ -715,6 +715,7 @@ def _is_expression_pattern(pattern: str) -> bool:
 def _resolve_dynamic_tags(
     tags: List[str],
     transaction: Dict,
+    data_sources: Optional[Dict] = None,
 ) -> List[str]:
     """Resolve dynamic tags, evaluating any {expression} placeholders.
 
@@ -730,6 +731,7 @@ def _resolve_dynamic_tags(
     Args:
         tags: List of tag strings, may contain {expression} placeholders
         transaction: Transaction dict with description, amount, date, field
+        data_sources: Supplemental sources a tag expression may query, as in a .rules file
 
     Returns:
         List of resolved tag strings (lowercased)
@@ -749,14 +751,13 @@ def _resolve_dynamic_tags(
                 continue
 
             try:
-                ctx = expr_parser.TransactionContext.from_transaction(transaction)
-                tree = expr_parser.parse_expression(expr)
-                evaluator = expr_parser.TransactionEvaluator(ctx)
-                value = evaluator.evaluate(tree)
-                if value:  # Only add non-empty values
-                    stripped = str(value).strip()
-                    if stripped:  # Skip whitespace-only values
-                        resolved.append(stripped.lower())
+                value = expr_parser.evaluate_transaction(expr, transaction, data_sources=data_sources)
+                # A list value gives one tag per element, as in a .rules file
+                for item in (value if isinstance(value, list) else [value]):
+                    if item:  # Only add non-empty values
+                        stripped = str(item).strip()
+                        if stripped:  # Skip whitespace-only values
+                            resolved.append(stripped.lower())
             except expr_parser.ExpressionError:
                 # Skip invalid expressions silently
                 pass
